@@ -250,10 +250,27 @@ TEXT = {
           "incl. the empty key, the record under a bare Subset prefix, 00 / ff runs, the internal prefix bytes); the two cache levels "
           "are exercised by order families around maximumCacheHeightDifference (an identifier re-opened near→far / far→far with the "
           "frontier advancing, then every former frontier tag and its neighbours opened and validated in full); the in-memory manager "
-          "(vdb-mem) also with transactions of 2-4 commits that are added and rolled back as a whole.",
+          "(vdb-mem) also with transactions of 2-4 commits that are added and rolled back as a whole. "
+          "THE CACHES ARE INSIDE A SECOND MODEL (CLdb, Model/VersionedCache.lean = Ldb + heap of mutable overlay objects + l1/l2 "
+          "(identifier -> tag, object pointer) + the views handed out, each holding the pointer and its old snapshot; LRU replacement "
+          "= an eviction step that may remove any entry at any time; Props/C07Cache.lean): for EVERY reachable cached state (any "
+          "interleaving of commits, stale-parent commits, pops, Gets, evictions; invariant CInv by induction, Lemmas/LdbCache.lean) "
+          "and every identifier the cached Get hands out exactly the root the cache-free Get builds, entry by entry "
+          "(cached_get_eq_uncached, cached_get_reads_eq_uncached, cached_view_shows_version; the projection of a reachable cached "
+          "state is a reachable cache-free state: projection_reachable); every view handed out earlier, read through the heap of ANY "
+          "later state over its old snapshot, still shows its commit on every key and every ordered scan although later Gets extend "
+          "the overlay object it points to in place (old_views_survive_in_place_extension: apply-without-override only adds keys no "
+          "commit in between touched, with the value they have in the old snapshot); answers depend only on the store, so any eviction "
+          "schedule is invisible (answers_depend_only_on_store, evictions_are_invisible; whole runs: cached_run_eq_uncached_run, "
+          "eviction_schedules_are_invisible); a commit keeps every entry valid "
+          "(add_keeps_cache_valid, cache_entries_valid); a tag only has to be a lower bound of what the object holds "
+          "(tag_lower_bound_suffices: the first-level entry that stays behind with an older tag is harmless). Tied by regenerated AST "
+          "facts (Gen/VdbCache: every access to the cache fields in the package, Get's lookup order / loop bounds / filing, Pop's "
+          "statements; the model's Pop purges a level iff the AST says so) and the vdb-cache stream (the complete content of the "
+          "real caches after every operation, object identities and overlay digests included, real LRU evictions announced to the model).",
   "design_ref": "§3 C07",
-  "note": "Sequential model; caches are not state of the model (cache-free Get; the cached path is covered by "
-          "cached_overlay_sound + correspondence); hypotheses of a frontier commit: height = frontier height + 1 < 2^64, "
+  "note": "Sequential model (a reader of an old view racing with a Get that extends its overlay object is outside it); the "
+          "cache-free model Ldb stays the reference, the cached model CLdb is proved equivalent to it; hypotheses of a frontier commit: height = frontier height + 1 < 2^64, "
           "hash not on the chain, user keys outside the hash-index prefix; goleveldb snapshots trusted; finding F3b "
           "(scans of historical views dropped empty-valued keys) was fixed by 734ff49 on top of 522bff7 (iterators skip "
           "deleted entries): the former negative theorems are replaced by positive witnesses and the model has no "
@@ -268,7 +285,13 @@ TEXT = {
           "branches were committed and popped on the way (same_history_same_obs); the undo patch recorded at commit "
           "restores the previous state for every key (rollback_exact), popping a whole branch returns to the fork "
           "point (branch_switch); tied to ldbManager by the pop-heavy vdb stream with views opened before the switch "
-          "and re-read after it. The other two stateful components have their own model (Model/NodeCache.lean, "
+          "and re-read after it. The rollback-overlay caches are inside the cached model CLdb (Props/C07Cache.lean): after Pop no "
+          "entry exists (pop_purges, with the purge read from the AST: code_purges, pop_statements_reviewed), in every reachable "
+          "cached state an identifier of an abandoned branch is refused and every view shows its commit whatever the caches held "
+          "before the switch (cached_unknown_id_refused, cached_view_shows_version), and the purge is necessary: without it (either "
+          "level) the view of a version below the switch serves a key of the NEW branch (pop_without_purge_serves_abandoned_branch, "
+          "pop_without_l2_purge_serves_abandoned_branch = former finding F5); tied by the vdb-cache stream in its pop-heavy mix "
+          "(cache content after every pop compared with the model). The other two stateful components have their own model (Model/NodeCache.lean, "
           "Props/C06Node.lean): for every sequence of momentum inserts, rollbacks of any depth and queries at any time, "
           "the period-point reader and the election lookup answer what a node that only ever saw the current chain answers "
           "(points_no_trace, election_no_trace; invariant: every stored entry is what a computation from scratch gives on the "
